@@ -1,7 +1,7 @@
 #!/venv/bin/python
 """SimFS fidelity self-test: random operation traces are applied both to SimFS and to a real
 temporary directory (tmpfs) through the same seam klongpy.db.file_cache uses (open 'rb'/'wb',
-os.makedirs, os.path.exists/getsize, os.fsync); visible results and error *types* must agree
+os.makedirs, os.path.exists/getsize, os.fsync, and the wider POSIX surface a change to that code could start to use: stat, r+b/ab/xb/text modes, seek/truncate, os.open/write/lseek/fstat/close, remove, replace, rmdir, listdir, scandir); visible results and error *types* must agree
 after every operation, and the final trees must be equal.
 
   selftest/simfs_fidelity.py [--cases 400] [--seed 0]
@@ -47,7 +47,8 @@ def one_case(seed):
     try:
         for step in range(3 + ch.draw(14, "n")):
             name = ch.pick(NAMES, "name")
-            op = ch.pick(["write", "write", "read", "exists", "getsize", "makedirs", "write_fsync"], "op")
+            op = ch.pick(["write", "write", "read", "exists", "getsize", "makedirs", "write_fsync", "stat", "patch", "append", "lowlevel",
+                          "remove", "rename", "xcreate", "truncate", "listdir", "isfile", "text", "rmdir", "scandir"], "op")
             sp, rp = posixpath.join("/r", name), os.path.join(tmp, name)
             res = []
             eo = bool(ch.draw(2, "exist_ok"))
@@ -71,6 +72,65 @@ def one_case(seed):
                         v = (fs.os if kind == "sim" else os).path.getsize(path)
                         isdir = (fs.os.path.isdir(path) if kind == "sim" else os.path.isdir(path))
                         res.append(("ok", "dir" if isdir else v))
+                    elif op == "stat":
+                        import stat as st_mod
+                        st = (fs.os if kind == "sim" else os).stat(path)
+                        res.append(("ok", "dir" if st_mod.S_ISDIR(st.st_mode) else ("file", st.st_size)))
+                    elif op == "patch":
+                        # update in place: seek, overwrite, truncate at a drawn size
+                        with (fs.open if kind == "sim" else open)(path, "r+b") as f:
+                            f.seek(2)
+                            f.write(b"PATCH")
+                            f.truncate(4 + 3 * eo)
+                            f.seek(0)
+                            res.append(("ok", f.read()))
+                    elif op == "append":
+                        with (fs.open if kind == "sim" else open)(path, "ab") as f:
+                            f.write(payload[:5])
+                            res.append(("ok", f.tell()))
+                    elif op == "lowlevel":
+                        o = fs.os if kind == "sim" else os
+                        fd = o.open(path, o.O_WRONLY | o.O_CREAT | (o.O_TRUNC if eo else 0), 0o644)
+                        try:
+                            n = o.write(fd, payload[:7])
+                            o.lseek(fd, 1, 0)
+                            o.write(fd, b"z")
+                            o.fsync(fd)
+                            size = o.fstat(fd).st_size
+                        finally:
+                            o.close(fd)
+                        res.append(("ok", n, size))
+                    elif op == "remove":
+                        (fs.os if kind == "sim" else os).remove(path)
+                        res.append(("ok", None))
+                    elif op == "rename":
+                        o = fs.os if kind == "sim" else os
+                        o.replace(path, path + ".new")
+                        o.replace(path + ".new", path)
+                        res.append(("ok", None))
+                    elif op == "xcreate":
+                        with (fs.open if kind == "sim" else open)(path, "xb") as f:
+                            f.write(b"x")
+                        res.append(("ok", None))
+                    elif op == "truncate":
+                        (fs.os if kind == "sim" else os).truncate(path, 3)
+                        res.append(("ok", None))
+                    elif op == "listdir":
+                        res.append(("ok", sorted((fs.os if kind == "sim" else os).listdir(path))))
+                    elif op == "scandir":
+                        with (fs.os if kind == "sim" else os).scandir(path) as it:
+                            res.append(("ok", sorted((e.name, e.is_dir(), e.is_file()) for e in it)))
+                    elif op == "isfile":
+                        o = fs.os if kind == "sim" else os
+                        res.append(("ok", o.path.isfile(path), o.path.isdir(path)))
+                    elif op == "text":
+                        with (fs.open if kind == "sim" else open)(path, "w", encoding="utf-8") as f:
+                            f.write("héllo\n")
+                        with (fs.open if kind == "sim" else open)(path, "r", encoding="utf-8") as f:
+                            res.append(("ok", f.read()))
+                    elif op == "rmdir":
+                        (fs.os if kind == "sim" else os).rmdir(path)
+                        res.append(("ok", None))
                     else:
                         (fs.os if kind == "sim" else os).makedirs(path, exist_ok=eo)
                         res.append(("ok", None))
